@@ -7,6 +7,8 @@ use crate::builders::fakes::{fake_bootstrap_witness, fake_raw_key_public, fake_r
 use crate::fees;
 use crate::utils;
 use std::collections::{BTreeMap, BTreeSet, HashMap, HashSet};
+#[cfg(feature = "verif-hooks")]
+use crate::verif_hooks::rand;
 
 fn count_needed_vkeys(tx_builder: &TransactionBuilder) -> usize {
     let mut input_hashes: Ed25519KeyHashes = Ed25519KeyHashes::from(&tx_builder.inputs);
